@@ -360,6 +360,7 @@ class Check:
     why: str = ""           # which contradiction makes it unreachable / which atoms make it reachable
     expect_fail: bool = True  # False for decoys: reachable Panic with a code that is not configured
     prologue: list = field(default_factory=list)  # asm run first (e.g. a storage write another test's guard would observe)
+    devdoc: str | None = None  # per-function `/// @custom:halmos …` (e.g. "--loop 3")
 
     @property
     def canon(self):
@@ -395,6 +396,55 @@ class Check:
         if self.assume is not None and not self.assume.ev(env):
             return False
         return all(a.ev(env) for a in self.atoms)
+
+
+@dataclass
+class LoopCheck(Check):
+    """a counted loop with a symbolic trip count n = arg0 & mask; the failure is reachable only after exactly `k` iterations.
+    shape `while`:   i = 0; while (n != 0) { i++; n-- }         (back edge = unconditional JUMP, exit = taken JUMPI)
+    shape `dowhile`: i = 0; do { i++ } while (i < n)            (back edge = the *taken* side of the JUMPI, exit = fall-through)
+    The counter lives in memory word 0x20. `atoms` describe the failing inputs for the sweep / messages only."""
+    shape: str = "while"
+    k: int = 1
+    mask: int = 7
+    loop_bound: int = 2
+
+    def body(self) -> list:
+        cnt = [("push", 0x20), "MLOAD"]
+        if self.shape == "while":
+            top, end = asm.fresh("top"), asm.fresh("end")
+            loop = asm.calldata_arg(0) + [("push", self.mask), "AND", ("label", top), "DUP1", "ISZERO", ("ref", end), "JUMPI",
+                                          ("push", 1)] + cnt + ["ADD", ("push", 0x20), "MSTORE",
+                                          ("push", 1), "SWAP1", "SUB", ("ref", top), "JUMP", ("label", end), "POP"]
+        else:
+            top = asm.fresh("dtop")
+            loop = [("label", top), ("push", 1)] + cnt + ["ADD", "DUP1", ("push", 0x20), "MSTORE"] + \
+                asm.calldata_arg(0) + [("push", self.mask), "AND", "GT", ("ref", top), "JUMPI"]
+        g = asm.eq_const(cnt, self.k)
+        for a in self.atoms[1:]:
+            g = g + a.compile() + ["AND"]
+        if self.kind == "assertTrue":
+            return list(self.prologue) + loop + vm_call("assertTrue", [g + ["ISZERO"]]) + ["STOP"]
+        bad = asm.panic(self.panic_code) if self.kind == "panic" else (asm.set_fail_flag() + ["STOP"])
+        return list(self.prologue) + loop + asm.if_then(g, bad) + ["STOP"]
+
+
+def gen_loop_check(rng, idx, g: "Grammar") -> LoopCheck:
+    shape = rng.choice(["while", "dowhile", "dowhile"])
+    k = rng.choice([1, 2, 3, 5])
+    bound = rng.choice([1, 2, 3, 6])
+    mask = 7
+    params = [Param("uint256", "n")]
+    wit = [k + rng.choice([0, 8, 1 << 200, (W - 1) & ~mask])]
+    atoms = [Bin("EQ", Bin("AND", Arg(0), Const(mask)), Const(k))]
+    if rng.random() < 0.4:
+        params.append(Param("uint256", "y"))
+        w = g.word()
+        wit.append(w)
+        atoms.append(Bin("EQ", Arg(1), Const(w)))
+    rel = "within" if k <= bound else "beyond"
+    return LoopCheck(f"check_{idx}_loop{g.n}", params, atoms, rng.choice(["panic", "panic", "flag", "assertTrue"]), 1, True, wit,
+                     None, "and", f"loop:{shape}:{rel}-bound", True, [], f"--loop {bound}", shape, k, mask, bound)
 
 
 @dataclass
@@ -664,7 +714,7 @@ class Grammar:
 
 
 def gen_contract(rng, name="T", ntests=3, pool=(), with_helper=None, bytes_sizes=None, array_sizes=None,
-                 panic_codes=(1,), refine=True, touch=False) -> Generated:
+                 panic_codes=(1,), refine=True, touch=False, loops=False) -> Generated:
     """setUp() storing constants (optionally deploying a helper whose address is kept in a slot) + `ntests` check functions,
     alternately reachable / unreachable, at least one with a dynamic parameter and one needing refinement per few contracts."""
     g = Grammar(rng, pool, bytes_sizes, array_sizes, panic_codes, refine)
@@ -697,6 +747,9 @@ def gen_contract(rng, name="T", ntests=3, pool=(), with_helper=None, bytes_sizes
         need = needs[t % len(needs)]
         checks.append(g.check(t, {k: v for k, v in storage.items()}, reachable, need=need,
                               dynamic=True if need == "dyn" else None))
+    if loops:
+        g.n += 1
+        checks.append(gen_loop_check(rng, ntests, g))
     if touch:
         # every test bumps slot 7 first and its guard requires the bumped value 1: a write leaking from another test (or from a
         # sibling path) turns the guard false
@@ -707,7 +760,7 @@ def gen_contract(rng, name="T", ntests=3, pool=(), with_helper=None, bytes_sizes
     fns = [Fn("setUp()", setup + ["STOP"] + ([("mark", "helper_blob"), ("raw", blob)] if with_helper else []))]
     # the blob must not be executed: setUp ends in STOP before it; Fn bodies get another STOP appended
     for c in checks:
-        fns.append(Fn(c.named, c.body()))
+        fns.append(Fn(c.named, c.body(), devdoc=c.devdoc))
     desc = TestContract(name, fns)
     return Generated(desc, checks, storage, others,
                      dyn_sizes={"bytes": g.bytes_sizes, "uint256[]": g.array_sizes})
@@ -1034,37 +1087,59 @@ class Scenario:
             fns.append(Fn(f"{inv.name}()", inv.body))
         return TestContract(self.name, fns), others
 
-    # ---- the Foundry rules for who may be called (written from the Foundry book, not from halmos)
-    def callable(self):
-        """-> list of (target, TFn) the fuzzer may call"""
+    # ---- the Foundry rules for who may be called (written from Foundry, not from halmos).
+    # Source: foundry `crates/evm/evm/src/executors/invariant/mod.rs` (`select_contracts_and_senders`, `select_selectors`,
+    # `add_address_with_functions`) and the "Invariant targets" section of the Foundry book:
+    #   1. candidate contracts = the contracts deployed during setUp (never the test contract itself unless it is listed in
+    #      targetContracts), kept when (targetContracts is empty or lists it) and excludeContracts does not list it;
+    #   2. AFTER that filtering, every targetSelectors entry with a NON-EMPTY selector list adds its contract to the targets
+    #      (`Entry::Vacant => insert`) — so a contract that excludeContracts removed comes back, restricted to those selectors
+    #      ("targetSelector overrides excludeContract"); an entry with an empty list is skipped ("Do not add address in target
+    #      contracts if no function selected");
+    #   3. functions of a target: the targeted selectors if there are any, otherwise every state-changing (non view/pure)
+    #      function minus the excluded selectors (targetSelector wins over excludeSelector for the same contract);
+    #   4. senders: targetSenders minus excludeSenders if that is non-empty, otherwise anyone not in excludeSenders.
+    def _sel_maps(self):
         f = self.filters
-        tsel = {}
+        tsel, xsel = {}, {}
         for a, sels in f.get("targetSelectors", []):
             tsel.setdefault(a, []).extend(sels)
-        xsel = {}
         for a, sels in f.get("excludeSelectors", []):
             xsel.setdefault(a, []).extend(sels)
+        return tsel, xsel
+
+    def targeted(self):
+        """-> the targets (among the deployed contracts) the fuzzer calls into"""
+        f = self.filters
+        tsel, _ = self._sel_maps()
         tc, xc = f.get("targetContracts", []), f.get("excludeContracts", [])
         out = []
         for t in self.targets:
-            selected = (t.addr in tc) if tc else True
-            if t.addr in xc:
-                selected = False
+            selected = ((t.addr in tc) if tc else True) and t.addr not in xc
             if tsel.get(t.addr):
                 selected = True
-            if not selected:
-                continue
-            for fn in t.fns:
-                sel = asm.selector(fn.canon)
-                if tsel.get(t.addr):
-                    if sel in tsel[t.addr]:
-                        out.append((t, fn))
-                elif xsel.get(t.addr):
-                    if sel not in xsel[t.addr]:
-                        out.append((t, fn))
-                elif fn.mutability not in ("view", "pure"):
-                    out.append((t, fn))
+            if selected:
+                out.append(t)
         return out
+
+    def callable_of(self, t):
+        tsel, xsel = self._sel_maps()
+        out = []
+        for fn in t.fns:
+            sel = asm.selector(fn.canon)
+            if tsel.get(t.addr):
+                if sel in tsel[t.addr]:
+                    out.append(fn)
+            elif xsel.get(t.addr):
+                if sel not in xsel[t.addr]:
+                    out.append(fn)
+            elif fn.mutability not in ("view", "pure"):
+                out.append(fn)
+        return out
+
+    def callable(self):
+        """-> list of (target, TFn) the fuzzer may call"""
+        return [(t, fn) for t in self.targeted() for fn in self.callable_of(t)]
 
     def sender_domain(self):
         f = self.filters
